@@ -88,7 +88,7 @@ def grow_scenarios(rng, tier):
 def run(tier, seed):
     rng = random.Random(seed)
     mc = filecheck.design_check()
-    n = 300 if tier == "quick" else 5000
+    n = 300 if tier == "quick" else 2500
     execs = []
     i = 0
     for cfg, fmt in [("cfg/File_sim_ok.cfg", 1), ("cfg/File_sim_ok2.cfg", 2), ("cfg/File_sim_ok5.cfg", 5)]:
